@@ -54,9 +54,9 @@ def check(ctx):
     g = k10.call_graph(P, LIBS, edges)
     ents = entries(ctx, "C10.3")
     reach = k10.reachable(g, ents)
-    ctx.count("functions reachable from the generator entry points", len(reach), 60)
+    ctx.count("functions reachable from the generator entry points", len(reach), 42)
     inv = [s for s in k10.inventory(P, ("scale_typegen",)) if s.owner in reach]
-    ctx.count("panic-capable sites in reach", len(inv), 60)
+    ctx.count("panic-capable sites in reach", len(inv), 42)
     # the prelude catch-all is discharged by K1 (C10.5)
     missing = G.prelude_table(ctx, "C10.5", only_panic_discharge=True)
     rest = []
